@@ -8,12 +8,11 @@ deny_info URLs) and the template walker `ErrorState::compile` with `%D` / `%S` n
 The interpreter sees of every source that is not admin-controlled only whether it is null/empty (`Shape`); its output is a
 skeleton of literal pieces and holes; the page is the skeleton rendered with the actual source bytes.
 
-Full statement (false of the real code, see `no_raw_client_markup_in_page_counterexample`):
-  for every template, transaction and mode, every hole of a hostile source in the compiled text carries a transformation.
-It fails because nested compilations (`%D`, `%S`) share the static buffer `mb`: the *unquoted* text that the last macro of
-the nested template left there is prepended to the nested result, which the outer block emits with do_quote = 0.
-The `_partial` theorems exclude exactly that region: nested templates (error detail text, signature) whose last macro
-leaves hostile bytes in `mb` (`cleanTail`). The hard-coded signature and every macro-free detail text are inside the proved region.
+History: until /repo commit f565422 the scratch buffer `mb` of compileLegacyCode was function-static and shared with nested
+compilations (`%D`, `%S`): the *unquoted* text the last nested macro left there was prepended to the nested result and emitted
+with do_quote = 0. For that tree only the `_partial` theorems below held (hypothesis `cleanTail` on the nested templates) and
+`prefix_static_buffer_counterexample` exhibited the leak. The buffer is local now (`Gen.ErrorMacros.staticMb = false`,
+regenerated from the source on every run) and the statement holds at full strength: `no_raw_client_markup_in_page`.
 -/
 import SquidModel.ErrPage.Render
 
@@ -31,7 +30,36 @@ both modes, a hostile source reaches `p` or `mb` only while do_quote is (still) 
 is unknown to the translator (unknown sources count as hostile); `mb` is emptied at the start of every invocation. -/
 theorem client_controlled_macros_quoted : tableOk = true := by decide +kernel
 
-/-- Main theorem (`_partial`, see the header): if the detail text and the signature end in a clean macro, then for every
+/-- the tree as it is: the macro buffer is not shared by nested compilations (regenerated from src/errorpage.cc) -/
+theorem macro_buffer_is_local : Gen.ErrorMacros.staticMb = false := rfl
+
+/-- **Main theorem, full strength.** For every template, every shape of transaction, both modes (error page / deny_info URL),
+every nesting budget, every detail text and signature template: each hole of a hostile source (request URI, host, method,
+headers, user name, FTP/DNS texts, and every source the reviewed classification does not list as admin-controlled) in the compiled
+text carries at least one transformation (`html_quote` or `rfc1738_escape_part`). -/
+theorem no_raw_client_markup_in_page (sh : Shape) (ctx : Ctx) (tmpl : Bytes) (fuel : Nat) (mb : Pieces) :
+    ∀ k xf, Piece.hole k xf ∈ (compile fuel sh ctx tmpl mb).1 → classOf k = .client → xf ≠ [] := by
+  intro k xf hm hc
+  exact (compile_safe_local client_controlled_macros_quoted macro_buffer_is_local sh fuel ctx tmpl mb).1 _ hm hc
+
+/-- Consequence for the bytes sent, full strength: the page is its skeleton rendered with the transaction's values, and whatever
+bytes a hostile source holds, its occurrences in the page contain no raw `<`, `>`, `"`, `'`, and `&` only as the start of an
+entity reference. -/
+theorem client_text_is_well_quoted (e : Env) (ctx : Ctx) (tmpl : Bytes) :
+    page e ctx tmpl = render e.bytes (compile nestingFuel (shapeOf e) ctx tmpl []).1 ∧
+    ∀ k xf, Piece.hole k xf ∈ (compile nestingFuel (shapeOf e) ctx tmpl []).1 → classOf k = .client →
+      wellQuoted (renderPiece e.bytes (.hole k xf)) = true := by
+  refine ⟨rfl, ?_⟩
+  intro k xf hm hc
+  exact wellQuoted_applyXfs xf (no_raw_client_markup_in_page (shapeOf e) ctx tmpl nestingFuel [] k xf hm hc) _
+
+/-- the former leak is gone: detail text `%M`, page `%D` now yields only the html-quoted method -/
+example : (compile 3 (Shape.example [.request, .detail] [37, 77] []) { deny := false, allowRec := true, inSig := false } [37, 68] []).1 =
+    [.hole .method [.html]] := by decide +kernel
+
+/-! ### pre-fix statements (tree before f565422: `mb` function-static); they remain true, the counterexample vacuously -/
+
+/-- Pre-fix main theorem (`_partial`): holds for a static buffer too: if the detail text and the signature end in a clean macro, then for every
 template, every shape of transaction, both modes and every nesting budget, each hole of a hostile source in the compiled
 text carries at least one transformation (`html_quote` or `rfc1738_escape_part`). -/
 theorem no_raw_client_markup_in_page_partial (sh : Shape) (ctx : Ctx) (tmpl : Bytes) (fuel : Nat) (mb : Pieces)
@@ -71,10 +99,10 @@ theorem skeleton_independent_of_client_bytes (e1 e2 : Env) (ctx : Ctx) (tmpl : B
     · funext k; rw [hempty k]
   rw [this]
 
-/-- The region excluded above is real: with the error detail text `%M`, the page template `%D` yields the request method
+/-- Pre-fix counterexample (labelled; premise `staticMb = true` is false of the current tree): with the error detail text `%M`, the page template `%D` yields the request method
 *without* any transformation (the nested `%M` leaves the raw method in the static `mb`, `%D` emits `mb` with do_quote = 0).
 (Stated for the tree as it is: `mb` function-static; with a local buffer the premise is false.) -/
-theorem no_raw_client_markup_in_page_counterexample : Gen.ErrorMacros.staticMb = true →
+theorem prefix_static_buffer_counterexample : Gen.ErrorMacros.staticMb = true →
     (compile 3 (Shape.example [.request, .detail] [37, 77] []) { deny := false, allowRec := true, inSig := false } [37, 68] []).1 =
       [.hole .method [], .hole .method [.html]] := by decide +kernel
 
